@@ -233,6 +233,16 @@ func opsC18() {
 				emitCall(group, []interface{}{o, a})
 			}
 		}
+		// the one operator with exactly three operands: every triple of the base domain
+		if group[0] == "between" {
+			for _, a := range base {
+				for _, b := range base {
+					for _, c := range base {
+						emitCall(group, []interface{}{a, b, c})
+					}
+				}
+			}
+		}
 		// arity 3..5: sampled vectors, zero divisors and wrong types at every position
 		n := 150
 		if thorough {
@@ -741,7 +751,9 @@ func opsC19() {
 		secs         int
 	}{{"Z", "+0000", 0}, {"+00:00", "+0000", 0}, {"+09:00", "+0900", 9 * 3600}, {"-05:00", "-0500", -5 * 3600},
 		{"+05:30", "+0530", 5*3600 + 1800}, {"-00:30", "-0030", -1800}, {"+14:00", "+1400", 14 * 3600}, {"-12:00", "-1200", -12 * 3600}}
-	years := []int{1, 1900, 1969, 1970, 1999, 2000, 2024, 2038, 9999}
+	years := []int{1, 1900, 1904, 1969, 1970, 1999, 2000, 2023, 2024, 2038, 2100, 2400, 9999}
+	// month ends, existing and not: February in leap, non-leap and century years, the 31st of 30-day months
+	monthEnds := [][2]int{{2, 28}, {2, 29}, {2, 30}, {2, 31}, {4, 30}, {4, 31}, {6, 31}, {9, 31}, {11, 31}, {12, 31}, {1, 31}, {3, 31}}
 	ndate := 1200
 	if thorough {
 		ndate = 30000
@@ -753,6 +765,10 @@ func opsC19() {
 		}
 		m := 1 + r.Intn(12)
 		d := []int{1, 28, 29, 30, 31, 15}[r.Intn(6)]
+		if r.Intn(3) == 0 {
+			me := monthEnds[r.Intn(len(monthEnds))]
+			m, d = me[0], me[1]
+		}
 		hh, mi, ss := []int{0, 23, 3, 12}[r.Intn(4)], []int{0, 59, 14}[r.Intn(3)], []int{0, 59, 7, 8}[r.Intn(4)]
 		withTime := r.Intn(2) == 0
 		if !withTime {
